@@ -93,6 +93,12 @@ def cases(tier):
                 if n in (3, 5):
                     yield Case("stability:vk:n=%d:atm=%d:ncol=%d:after_siblings" % (n, ai, nc),
                                {"kind": "stab", "n": n, "atm": list(atm), "ncol": nc, "siblings": True})
+    # screens larger than the outer scale (separations beyond L0 inside the stencil) and pixels of 1e-4 outer scales
+    # (the recursion is then within 1e-4 of a unit root)
+    for n, atm, nc in ((5, (1.0, 0.1, 2.0), 2), (6, (0.5, 0.15, 1.0), 2), (8, (0.5, 0.15, 2.5), 1), (6, (0.02, 0.15, 100.0), 2),
+                       (8, (0.008, 0.2, 100.0), 2), (12, (0.02, 0.15, 100.0), 1)):
+        yield Case("stability:vk:n=%d:ps=%g,r0=%g,L0=%g:ncol=%d" % ((n,) + atm + (nc,)),
+                   {"kind": "stab", "n": n, "atm": list(atm), "ncol": nc})
     # configurations the unchanged library refuses to construct (LinAlgError from the Cholesky factorisation of a
     # barely positive definite stencil covariance): outside the property as long as they are refused; judged - shape,
     # finiteness, shift and stability - if a changed library constructs them
